@@ -90,6 +90,8 @@
 #![forbid(unsafe_code)]
 #![deny(rust_2018_idioms)]
 #![allow(clippy::match_like_matches_macro)]
+// `tiny_http_verif` is a cfg flag used by external verification tooling; never set in normal builds
+#![allow(unknown_lints, unexpected_cfgs)]
 
 #[cfg(any(
     feature = "ssl-openssl",
@@ -103,11 +105,20 @@ use std::io::Error as IoError;
 use std::io::ErrorKind as IoErrorKind;
 use std::io::Result as IoResult;
 use std::net::{Shutdown, TcpStream, ToSocketAddrs};
+#[cfg(not(tiny_http_verif))]
 use std::sync::atomic::AtomicBool;
+#[cfg(not(tiny_http_verif))]
 use std::sync::atomic::Ordering::Relaxed;
+#[cfg(tiny_http_verif)]
+use tiny_http_verif_rt::sync::atomic::AtomicBool;
+#[cfg(tiny_http_verif)]
+use tiny_http_verif_rt::sync::atomic::Ordering::Relaxed;
 use std::sync::mpsc;
 use std::sync::Arc;
+#[cfg(not(tiny_http_verif))]
 use std::thread;
+#[cfg(tiny_http_verif)]
+use tiny_http_verif_rt::thread;
 use std::time::Duration;
 
 use client::ClientConnection;
